@@ -64,6 +64,7 @@ choice was made instead that the issuer is always the revocation authority.
 package revocation
 
 import (
+	"crypto/ecdsa"
 	"encoding/base64"
 	"encoding/binary"
 	"encoding/json"
@@ -99,6 +100,7 @@ type (
 		Accumulator *Accumulator   `json:"-"` // Accumulator contained in this instance, set by UnmarshalVerify()
 
 		verifiedWith *gabikeys.PublicKey // key with which Data was verified when Accumulator was set
+		signedWith   *ecdsa.PublicKey    // set instead when this instance was made by Accumulator.Sign()
 	}
 
 	// Event contains the data clients need to update to the Accumulator of the specified index,
@@ -192,7 +194,7 @@ func (acc *Accumulator) Sign(sk *gabikeys.PrivateKey) (*SignedAccumulator, error
 	if err != nil {
 		return nil, err
 	}
-	return &SignedAccumulator{Data: sig, PKCounter: sk.Counter, Accumulator: acc}, nil
+	return &SignedAccumulator{Data: sig, PKCounter: sk.Counter, Accumulator: acc, signedWith: &sk.ECDSA.PublicKey}, nil
 }
 
 // Remove generates a new accumulator with the specified e removed from it.
@@ -220,8 +222,13 @@ func (acc *Accumulator) Remove(sk *gabikeys.PrivateKey, e *big.Int, parent *Even
 // UnmarshalVerify verifies the signature and unmarshals the accumulator
 // (c.f. Accumulator.Sign()).
 func (s *SignedAccumulator) UnmarshalVerify(pk *gabikeys.PublicKey) (*Accumulator, error) {
-	// The result of an earlier verification only counts for the key it was verified with
+	// The result of an earlier verification only counts for the key it was verified with. An
+	// instance that we signed ourselves needs no verification under the matching key (and is not
+	// written to here: the issuer's own objects may be shared between goroutines).
 	if s.Accumulator != nil && s.verifiedWith == pk {
+		return s.Accumulator, nil
+	}
+	if s.Accumulator != nil && s.signedWith != nil && pk.ECDSA != nil && pk.Counter == s.PKCounter && s.signedWith.Equal(pk.ECDSA) {
 		return s.Accumulator, nil
 	}
 	msg := &Accumulator{}
